@@ -32,7 +32,7 @@ ASSUMPTIONS = [
 
 
 def cases(rng, tier):
-    return S.gen_cases(rng, tier, 330 if tier == "quick" else 5500)
+    return S.gen_cases(rng, tier, 1200 if tier == "quick" else 16000)
 
 
 def search_cases(rng, tier):
